@@ -63,7 +63,7 @@ func dfParseRecords(toks []string, qname string) ([]dns.RR, bool) {
 			if err != nil {
 				return nil, false
 			}
-			rrs = append(rrs, &dns.PrivateRR{Hdr: hdr(65000), Data: &util.SocketAcePrivate{Data: d}})
+			rrs = append(rrs, &dns.PrivateRR{Hdr: hdr(util.TypeSocketAce), Data: &util.SocketAcePrivate{Data: d}})
 		case "T":
 			if bad(2) {
 				return nil, false
@@ -393,7 +393,9 @@ func dfRecord(r *Rand, kind byte, order int, payload []byte, dom string) string 
 }
 
 func dfMalformedRecord(r *Rand, dom string) string {
-	short := [][]byte{{}, {0x61}, {0x61, 0x62}, []byte("v"), []byte("." + dom + "."), []byte(dom), []byte("ab." + dom + "."), []byte("a." + dom)}
+	short := [][]byte{{}, {0x61}, {0x61, 0x62}, []byte("v"), []byte("." + dom + "."), []byte(dom), []byte("ab." + dom + "."), []byte("a." + dom),
+		// presentation escapes (unescapePresentation): \\DDD, \\c, too few digits, a backslash as last byte
+		[]byte("aa\\099\\." + dom + "."), []byte("aac\\12." + dom + "."), []byte("aa\\"), []byte("\\\\\\065x\\"), []byte("aao\\000\\2555." + dom + ".")}
 	s := short[r.Intn(len(short))]
 	switch r.Intn(12) {
 	case 0:
